@@ -118,6 +118,42 @@ func run(threads [][]Op, x *mc.X) ([][]string, int, bool) {
 	}
 	done, waiting := make([]bool, n), make([]bool, n)
 	cur, remaining, deadlock := -1, n, false
+	// An exploration that is abandoned in the middle of an execution (x.Choose / x.Deviate panic when a replayed choice
+	// vector no longer fits: the library kept state from an earlier execution) must not leave thread goroutines suspended
+	// inside the library - one of them may hold a lock of the library, and every later call of this process would wait for
+	// it for ever. The unfinished threads are therefore run to completion, one after the other, before the panic goes on.
+	defer func() {
+		if remaining == 0 {
+			return
+		}
+		pv := recover()
+		for pass := 0; remaining > 0 && pass < 4*n+4; pass++ {
+			if pass >= n+1 {
+				e.abort = true // still threads left after every one had its chance: they wait for each other - unwind them
+			}
+			for i := 0; i < n && remaining > 0; i++ {
+				if done[i] {
+					continue
+				}
+				e.turn[i] <- struct{}{}
+				for {
+					ev := <-e.back
+					if ev.done {
+						done[ev.tid] = true
+						remaining--
+						break
+					}
+					if ev.blocked && !e.abort {
+						break // waits for a lock another unfinished thread holds: finish the others first
+					}
+					e.turn[ev.tid] <- struct{}{}
+				}
+			}
+		}
+		if pv != nil {
+			panic(pv)
+		}
+	}()
 	for remaining > 0 {
 		if e.released {
 			e.released = false
